@@ -913,13 +913,15 @@ ORDER_SENSITIVE = ("unfitted", "fit", "fit-show-refit", "fit-displace", "fit-asy
 QUICK_SCIPY_MULTI = ("multi-expo", "multi-one")
 
 
-def cases(problem, backend, fix, tier):
+def cases(problem, backend, fix, tier, v=0):
     """(sequence, display order) pairs of one job."""
     k = 0
     for seqname in seq_names(tier):
         steps = SEQUENCES[seqname]
         if is_multi(problem) and "reload" in steps:
             continue  # a multi-fit has no file representation
+        if backend == "scipy" and tier == "thorough" and is_multi(problem) and int(v) != 0 and any(t in ASYM_STEPS for t in steps):
+            continue  # thorough tier: scipy profile scans of multi-fits (5-8 s each) in the first valuation only
         if backend == "scipy" and tier == "quick" and any(t in ASYM_STEPS for t in steps) and seqname not in QUICK_SCIPY_ASYM.get(problem, ()):
             continue
         if seqname not in ORDER_SENSITIVE and tier == "quick":
@@ -934,7 +936,7 @@ def cases(problem, backend, fix, tier):
 
 
 def run_show(res, problem, backend, v, fix, tier):
-    for seqname, order in cases(problem, backend, fix, tier):
+    for seqname, order in cases(problem, backend, fix, tier, v):
         bad, stats = run_show_case(problem, backend, v, fix, seqname, order)
         res.executions += 1
         res.transitions += stats["ops"]
@@ -966,7 +968,7 @@ def run_show(res, problem, backend, v, fix, tier):
             seen.add((what, obs))
             sig = "show|%s|%s|%s|%s|%s" % (problem, backend, "fixed" if fix else "free", ";".join(SEQUENCES[seqname][: si + 1]), what)
             res.violation(sig, hist, obs, exp, act, mode, extra=dict(step=si, display=what))
-    res.sample(dict(kind="show", problem=problem, backend=backend, valuation=v, fixed_last_parameter=bool(fix), cases=["%s/%s" % c for c in cases(problem, backend, fix, tier)]))
+    res.sample(dict(kind="show", problem=problem, backend=backend, valuation=v, fixed_last_parameter=bool(fix), cases=["%s/%s" % c for c in cases(problem, backend, fix, tier, v)]))
 
 
 # ----------------------------------------------------------------------------------------------------------------------
